@@ -55,6 +55,7 @@ class Ctx:
         self.repo = repo
         self.src = {k: strip_comments(read(repo, v)) for k, v in FILES.items()}
         self.sites = []     # (command, file, method, receiver, phase tokens) for the evidence
+        self.prop = {}      # command -> [(file, method, propagated?)]
 
     def body(self, fkey, fn, nth=0):
         return fn_body(self.src[fkey], fn, nth)
@@ -166,6 +167,31 @@ def classify(ctx, cmd, fkey, body, m, depth):
     raise ExtractError("%s: unclassified storage call %s" % (cmd, meth))
 
 
+def propagated(body, m):
+    """Does the result of the call matched by m reach the caller's result?  Yes when the call (after
+    optional `.method(..)` adaptors such as map_err / map / into) is followed by `?`, or is the tail
+    expression of its function / closure / match arm (next token `}` `)` or `,`).  `;` right after the
+    call, `_ = call;`, `if let Err(..) = call` etc. = the result is dropped."""
+    e = match_brace(body, m.end() - 1, "(", ")") + 1
+    while True:
+        rest = body[e:].lstrip()
+        off = len(body) - len(rest)
+        if rest.startswith("?"):
+            return True
+        mm = re.match(r"\.\s*[A-Za-z_]\w*\s*(::<[^>]*>)?\s*\(", rest)
+        if mm:
+            e = match_brace(body, off + mm.end() - 1, "(", ")") + 1
+            continue
+        if rest == "" or rest[:1] in ("}", ")", ","):
+            return True
+        # `if let Err(e) = call { ..; return Err(e); }`
+        pm = re.search(r"if\s+let\s+Err\(\s*(\w+)\s*\)\s*=\s*[^;{}]*$", body[:m.start()])
+        if pm and rest.startswith("{"):
+            blk = body[off + 1:match_brace(body, off)]
+            return bool(re.search(r"return\s+Err\(\s*%s\s*\)" % re.escape(pm.group(1)), blk))
+        return False
+
+
 def effects(ctx, cmd, fkey, body, depth=0):
     out = []
     for m in INVENTORY.finditer(body):
@@ -174,6 +200,9 @@ def effects(ctx, cmd, fkey, body, depth=0):
         if m.group(2) and re.search(r"\bfn\s*$", body[max(0, m.start() - 6):m.start()]):
             continue
         res = classify(ctx, cmd, fkey, body, m, depth)
+        if res:
+            # error propagation of THIS call site (leaf or call of an expanded callee)
+            ctx.prop.setdefault(cmd, []).append((FILES[fkey], (m.group(1) or m.group(2)), propagated(body, m)))
         if depth == 0:
             ctx.sites.append({"command": cmd, "file": FILES[fkey], "call": (m.group(1) or m.group(2)),
                               "phases": [p for p, _ in res]})
@@ -354,8 +383,55 @@ def gen(repo):
     out.append("Definition prune_early_guard (early_delete_index instant_delete : bool) : bool := %s." % early_expr)
     out.append("Definition order_prune (early_delete_index instant_delete : bool) : list phase :=\n  "
                + "\n  ++ ".join(parts) + ".")
+    # ---- error propagation: every storage call site of the phase lists hands its result on
+    cmds = ["backup", "copy", "merge", "rewrite_trees", "rewrite_meta", "repair_snapshots", "repair_index",
+            "forget", "prune", "config", "key_add", "key_delete"]
+    out.append("(* error propagation of the storage call sites (true = `?` / tail expression), in textual order *)")
+    for cmd in cmds:
+        sites = ctx.prop.get(cmd, [])
+        out.append("(* %s: %s *)" % (cmd, ", ".join("%s%s" % (mth, "" if ok else " DROPPED") for _, mth, ok in sites)))
+        out.append("Definition propagates_%s : list bool := [%s]." % (cmd, "; ".join("true" if ok else "false" for _, _, ok in sites)))
+    # the shared writer pipeline behind every packer / copier, and the list helpers of the decrypt backend
+    pk = strip_comments(read(repo, "crates/core/src/blob/packer.rs"))
+    de = strip_comments(read(repo, "crates/core/src/backend/decrypt.rs"))
+    def has(pat, txt):
+        return bool(re.search(pat, txt, re.S))
+    def gen_fn_body(src, name):
+        """body of a fn whose generic parameter list nests `<..>` (rustscan.fn_body cannot parse it)"""
+        i = src.find("fn " + name)
+        j = src.find("-> RusticResult", i)
+        b = src.find("{", j)
+        if i < 0 or j < 0 or b < 0 or ";" in src[j:b]:
+            raise ExtractError("decrypt.rs: fn %s with a body not found" % name)
+        return src[b + 1:match_brace(src, b)]
+    proc, idx = fn_body(pk, "process"), fn_body(pk, "index")
+    actor_new = next((fn_body(pk, "new", i) for i in range(len(re.findall(r"\bfn\s+new\b", pk))) if "fwh" in fn_sig(pk, "new", i)), None)
+    if actor_new is None:
+        raise ExtractError("packer.rs: Actor::new(fwh, ..) not found")
+    fins = [fn_body(pk, "finalize", i) for i in range(len(re.findall(r"\bfn\s+finalize\b", pk)))]
+    raw_fin = next((b for b in fins if "file_writer" in b), None)
+    act_fin = next((b for b in fins if "self.finish.recv().unwrap()" in " ".join(b.split())), None)
+    if raw_fin is None:
+        raise ExtractError("packer.rs: RawPacker::finalize (file_writer) not found")
+    mfw = re.search(r"self\.file_writer\.take\(\)\.unwrap\(\)\.finalize\(\)\s*\?", raw_fin)
+    del stack_closed[:]
+    writer = [
+        ("FileWriterHandle::process: write_bytes(FileType::Pack, ..)?", has(r"\.write_bytes\(\s*FileType::Pack[^;]*\)\s*\?", proc)),
+        ("FileWriterHandle::index: indexer.add(index)?", has(r"\.add\(\s*index\s*\)\s*\?", idx)),
+        ("Actor::new: the writer stops at the first failed upload: try_for_each(|index| fwh.index(index?))", has(r"\.try_for_each\(\s*\|index\|\s*fwh\.index\(\s*index\?\s*\)\s*\)", actor_new)),
+        ("Actor::new: the pipeline result is bound (`let status = rx..;`) and then sent (`finish_tx.send(status)`)", has(r"let\s+status\s*=\s*rx\b", actor_new) and has(r"finish_tx\.send\(\s*status\s*\)", actor_new)),
+        ("Actor::finalize returns the writer's status (self.finish.recv().unwrap())", act_fin is not None),
+        ("RawPacker::finalize: self.save()?", has(r"self\.save\(\)\s*\?", raw_fin)),
+        ("RawPacker::finalize awaits the writer unconditionally: file_writer.take().unwrap().finalize()? outside any `if`", bool(mfw) and not enclosing_conditions(raw_fin, mfw.start())),
+        ("DecryptWriteBackend::delete_list: self.remove(ID::TYPE, id, cacheable)? inside try_for_each(..)?", has(r"self\.remove\(\s*ID::TYPE\s*,\s*id\s*,\s*cacheable\s*\)\s*\?", gen_fn_body(de, "delete_list")) and has(r"try_for_each\(.*\}\s*\)\s*\?", gen_fn_body(de, "delete_list"))),
+        ("DecryptWriteBackend::save_list: self.save_file(file)? inside try_for_each(..)?", has(r"self\.save_file\(\s*file\s*\)\s*\?", gen_fn_body(de, "save_list")) and has(r"try_for_each\(.*\}\s*\)\s*\?", gen_fn_body(de, "save_list"))),
+    ]
+    out.append("(* the writer thread behind every packer / blob copier and the list helpers: %s *)" % "; ".join("%s%s" % (n, "" if ok else " -- NOT FOUND") for n, ok in writer))
+    out.append("Definition propagates_writer : list bool := [%s]." % "; ".join("true" if ok else "false" for _, ok in writer))
     out.append("")
-    meta = {"orders": orders, "prune_early_guard": early_expr, "call_sites": ctx.sites, "soft_pin_misses": list(SOFT_MISSES)}
+    meta_prop = {cmd: [{"file": f, "call": mth, "propagated": ok} for f, mth, ok in ctx.prop.get(cmd, [])] for cmd in cmds}
+    meta_prop["writer"] = [{"fact": n, "holds": ok} for n, ok in writer]
+    meta = {"propagation": meta_prop, "orders": orders, "prune_early_guard": early_expr, "call_sites": ctx.sites, "soft_pin_misses": list(SOFT_MISSES)}
     return "\n".join(out), meta
 
 
